@@ -223,6 +223,21 @@ func main() {
 			doIO(r, ro.ioScenario, false)
 		case ro.Mode == "gc-barrier":
 			gcReplay(r, 40, ro.Fanout)
+		case ro.EP != "" && ro.Backend == "os":
+			if ep := findEP(ro.EP); ep != nil && osScratchInit() == nil {
+				defer osScratchCleanup()
+				r.Eval()
+				if ro.Mode == "os-cancel-at" {
+					full, err := runOS(ep, ro.Spec, "os-cancel-at", ro.Arg, -1)
+					res, err2 := runOS(ep, ro.Spec, "os-cancel-at", ro.Arg, ro.K)
+					if err == nil && err2 == nil {
+						report(r, checkCancelAt(ro.fsCase, res, full))
+					}
+				} else if res, err := runOS(ep, ro.Spec, ro.Mode, ro.Arg, 0); err == nil {
+					report(r, checkOSPre(ro.fsCase, res))
+				}
+				osScratchCleanup()
+			}
 		case ro.EP != "":
 			if ep := findEP(ro.EP); ep != nil {
 				r.Eval()
@@ -249,5 +264,67 @@ func main() {
 	coverageNote(r)
 	fsPreCancelled(r, treeSpec{Dirs: 4, Files: 3, Big: 100000, Empty: 2})
 	fsSweeps(r)
+	osLinks(r)
 	r.Finish()
+}
+
+// OS back end, trees with symbolic links and link arguments
+func osLinks(r *h.Run) {
+	if err := osScratchInit(); err != nil {
+		r.Note("OS back end skipped: " + err.Error())
+		return
+	}
+	defer osScratchCleanup()
+	spec := treeSpec{Dirs: 2, Files: 2, Big: 40000, Empty: 1}
+	for _, ep := range entryPoints() {
+		ep := ep
+		for _, arg := range []string{argPlain, argLink, argDangling} {
+			for _, mode := range []string{"os-pre-cancelled", "os-pre-deadline"} {
+				r.Eval()
+				r.Count("fs-" + mode + ":" + arg)
+				res, err := runOS(&ep, spec, mode, arg, 0)
+				c := fsCase{EP: ep.Name, Spec: spec, Mode: mode, Arg: arg, Backend: "os"}
+				if err != nil {
+					if arg == argPlain {
+						r.Note("OS setup failed for " + ep.Name + ": " + err.Error())
+					}
+					continue // e.g. a handle cannot be opened on a dangling link: nothing to call
+				}
+				report(r, checkOSPre(c, res))
+				r.Distinct("ospre|" + ep.Name + "|" + mode + "|" + arg)
+			}
+		}
+	}
+	// cancellation from inside the k-th backend operation, every k, on the tree with links
+	for _, name := range []string{"Remove", "RemoveExcl", "RemoveWithPrivileges", "CleanDir", "Walk", "LsRecursive", "ListDirTree", "Chmod"} {
+		ep := findEP(name)
+		if ep == nil {
+			continue
+		}
+		for _, arg := range []string{argPlain, argLink} {
+			full, err := runOS(ep, spec, "os-cancel-at", arg, -1)
+			if err != nil || full.Kind != "nil" {
+				r.Note(fmt.Sprintf("OS %s (%s) without cancellation: kind %s %s %v — sweep skipped", name, arg, full.Kind, full.Err, err))
+				continue
+			}
+			maxAfter := int64(0)
+			for k := int64(1); k <= full.Total; k++ {
+				if (r.Thorough() || full.Total <= 60 || k <= 15 || (k+r.Seed)%5 == 0) == false {
+					continue
+				}
+				res, err := runOS(ep, spec, "os-cancel-at", arg, k)
+				if err != nil {
+					continue
+				}
+				r.Eval()
+				r.Count("fs-os-cancel-at")
+				report(r, checkCancelAt(fsCase{EP: name, Spec: spec, Mode: "os-cancel-at", Arg: arg, K: k, Backend: "os"}, res, full))
+				if res.After > maxAfter {
+					maxAfter = res.After
+				}
+			}
+			r.Distinct("ossweep|" + name + "|" + arg)
+			r.Note(fmt.Sprintf("OS back end, tree with links, %s (%s): %d backend operations, max %d after cancellation", name, arg, full.Total, maxAfter))
+		}
+	}
 }
